@@ -264,6 +264,7 @@ func runC09(c *report.Ctx) {
 	rulePendingInputsAppend(c)
 	ruleRollbackReverseOrder(c)
 	ruleLayout(c, []string{"outpoint-key", "credit-value"}, 12)
+	ruleRelevantIndex(c, 4)
 }
 
 func loopContainsBlock(hdr, b *ssa.BasicBlock) bool {
